@@ -22,6 +22,21 @@ Gen/FormatTables.lean), for ALL texts / token sequences / lexical contexts:
   * `C17_space_stable`, `C17_continuation_stable`   outside macro bodies the spacing decision depends on the tokens,
                                    the lexical context and "was there a gap": re-emitted text gets the same separators.
 
+VARIANTS.  The model carries three switches (`Variant`: `guard`, `eofFix`, `litFix`) for the repairs of the
+findings subproc-words-respaced-*, eof-continuation-loses-final-newline and literal-trailing-blanks-stripped;
+the harness probes the running implementation for each and runs the model in the same variant, so the check
+is green on the snapshot and on the repaired tree.  The run-loop, no-merge and stability theorems hold for
+EVERY variant (they quantify over `cfg`).  For the repaired code the headlines are
+  * `C17_finalizeV_idem`                 `_finalize` (with or without the final-backslash rule) is idempotent;
+  * `C17_finalize_token_safe_repaired`   the repaired `_finalize` edits separators only whenever no token text
+                                         ENDS in a blank — multi-line literals with blank-terminated lines
+                                         included (the example shows the snapshot's counterexample surviving);
+  * `C17_only_ws_changes_V`              only whitespace changes, whichever variant runs;
+  * `C17_subproc_text_keeps_gaps`        in subprocess text no rule but the comment padding and the bracket
+                                         adjacency rules decides a separator, for all token pairs.
+`C17_finalize_token_safe_cex` and `C17_subproc_text_respaced_snapshot` state the PINNED SNAPSHOT's behaviour
+(`litFix = false`, `guard = false`): they are what the repairs remove, and stay true of the snapshot variant.
+
 What is NOT a theorem: that xonsh's tokenizer and parser (1600 lines of regex scanner, an LALR automaton with
 ~600 actions) map "same token texts, separators only where no merge is possible" to "same syntax tree" — the step
 from these theorems to the property's main clause.  That step, and the property itself on the real code, are
@@ -268,8 +283,9 @@ theorem C17_finalize_token_safe (ps : List Piece) (h : ∀ p ∈ ps, p.isTok = t
   unfold finalize finalizeSafe
   rw [(stripSeps_spec ps h).1]
 
-/-- the hypothesis is needed — the known defect: a multi-line string literal with a line that ends in a
-blank.  Its text does not survive `_finalize`. -/
+/-- PINNED SNAPSHOT (`litFix = false`): the hypothesis is needed — the known defect
+`literal-trailing-blanks-stripped`: a multi-line string literal with a line that ends in a blank does not
+survive the snapshot's `_finalize`.  (It survives the repaired one: `C17_finalize_token_safe_repaired`.) -/
 def cexString : Str := "\"\"\"a \nb\"\"\"".toList
 
 theorem C17_finalize_token_safe_cex :
@@ -401,13 +417,22 @@ theorem allWs_spaces (n : Int) : allWs (spaces n) = true := by
 theorem sepP_ok (r : Rule) (t : Str) (h : allWs t = true) : SepOk (sepP r t) := ⟨rfl, fun _ => h⟩
 theorem srcP_ok (r : Rule) (t : Str) : SepOk (srcP r t) := ⟨rfl, fun h => by simp [srcP] at h⟩
 
+theorem forcedLate_ok (cfg : Cfg) (st : St) (pk : Kind) (ps : Str) (cs : Str) (p : Piece)
+    (h : forcedLate cfg st pk ps cs = some p) : SepOk p := by
+  unfold forcedLate at h
+  repeat' split at h
+  all_goals first
+    | (cases h; apply sepP_ok; decide)
+    | (simp at h)
+
 theorem forced_ok (cfg : Cfg) (st : St) (pk : Kind) (ps : Str) (ck : Kind) (cs : Str) (p : Piece)
     (h : forced cfg st pk ps ck cs = some p) : SepOk p := by
   unfold forced at h
   repeat' split at h
   all_goals first
     | (cases h; apply sepP_ok; decide)
-    | (simp at h)
+    | (simp at h; done)
+    | exact forcedLate_ok _ _ _ _ _ _ h
 
 theorem gapOf_ok (a b : Tok) : SepOk (gapOf a b) := by
   unfold gapOf
@@ -717,6 +742,18 @@ theorem punct_rightInert : rightInert tokOps ',' = true ∧ rightInert tokOps ';
 
 /-! ### which rule produced a glued pair -/
 
+theorem forcedLate_rule_cases {cfg : Cfg} {st : St} {pk : Kind} {ps cs : Str} {p : Piece}
+    (h : forcedLate cfg st pk ps cs = some p) :
+    (p.rule ≠ .opener) ∧ (p.rule ≠ .closer) ∧
+    (p.rule = .commaB → cs = [','] ∨ cs = [';']) ∧
+    (p.rule = .colonB → cs = [':']) ∧
+    (p.rule = .colonSlice → ps = [':'] ∧ st.brackets.head? = some ['[']) := by
+  unfold forcedLate at h
+  repeat' split at h
+  all_goals first
+    | (cases h; simp only [sepP]; refine ⟨?_, ?_, ?_, ?_, ?_⟩ <;> intro hr <;> first | assumption | (cases hr; done) | (simp_all; done))
+    | (simp at h)
+
 theorem forced_rule_cases {cfg : Cfg} {st : St} {pk ck : Kind} {ps cs : Str} {p : Piece}
     (h : forced cfg st pk ps ck cs = some p) :
     (p.rule = .opener → cfg.tb.openers.contains ps = true) ∧
@@ -728,7 +765,9 @@ theorem forced_rule_cases {cfg : Cfg} {st : St} {pk ck : Kind} {ps cs : Str} {p 
   repeat' split at h
   all_goals first
     | (cases h; simp only [sepP]; refine ⟨?_, ?_, ?_, ?_, ?_⟩ <;> intro hr <;> first | assumption | (cases hr; done) | (simp_all; done))
-    | (simp at h)
+    | (simp at h; done)
+    | (obtain ⟨h1, h2, h3, h4, h5⟩ := forcedLate_rule_cases h
+       exact ⟨fun e => absurd e h1, fun e => absurd e h2, h3, h4, h5⟩)
 
 theorem gapOf_rule (a b : Tok) :
     (gapOf a b).rule = .gapLines ∨ (gapOf a b).rule = .gapSome ∨ (gapOf a b).rule = .gapNone := by
@@ -791,7 +830,7 @@ theorem C17_no_merge (cfg : Cfg) (htb : cfg.tb = genTables) (st : St) (a b : Tok
   · exact merges_false_of_rightInert _ _ _ ':' (by rw [h4 hr]; rfl) punct_rightInert.2.2 hb
 
 def opTok (s : Str) : Tok := ⟨.op, s, 1, 0, 1, 0⟩
-def genCfg : Cfg := ⟨genTables, Gen.FormatTables.defaultIndent, []⟩
+def genCfg : Cfg := ⟨genTables, Gen.FormatTables.defaultIndent, [], {}⟩
 
 /-- the brace exception is real: `{ {` (and `} }`) written with a gap are glued by the opener / closer rule
 into `{{` / `}}`, which inside an f-string field is an escaped brace (known finding
@@ -903,6 +942,260 @@ theorem C17_continuation_stable (v L : Nat) (hL : 0 < L) : roundDiv (v * L) L = 
 example : roundDiv (3 * 4) 2 = 6 ∧ roundDiv (3 * 4) 8 = 2 ∧ roundDiv (1 * 4) 8 = 0 ∧ roundDiv (3 * 4) 8 = 2 := by decide
 
 
+/-! ## the repaired variants (the implementation's variant is probed by the harness on every run) -/
+
+theorem tokClean_snoc_nl (x : Str) (h : tokClean (x ++ ['\n']) = true) : tokClean (x ++ ['\n', '\n']) = true := by
+  induction x with
+  | nil => decide
+  | cons c cs ih =>
+    cases cs with
+    | nil =>
+      have hb : isBlank c = false := by
+        simp [tokClean] at h
+        cases hb : isBlank c <;> simp [hb] at h ⊢
+      simp [tokClean, hb] <;> decide
+    | cons d r =>
+      have h2 := noTrail_tail h
+      simp only [List.cons_append, tokClean] at h ⊢
+      simp only [Bool.and_eq_true] at h ⊢
+      exact ⟨h.1, ih h2⟩
+
+/-- C17 (repaired `_finalize`, either variant): idempotent for every text. -/
+theorem C17_finalizeV_idem (e : Bool) (s : Str) : finalizeV e (finalizeV e s) = finalizeV e s := by
+  have hc1 : tokClean (rstripNl (stripTrail s) ++ ['\n']) = true :=
+    clean_rstripNl_nl _ (stripTrail_is_clean s)
+  have hc2 := tokClean_snoc_nl _ hc1
+  have r1 : rstripNl (rstripNl (stripTrail s) ++ ['\n']) = rstripNl (stripTrail s) := by
+    rw [rstripNl_append_nl, rstripNl_idem]
+  have r2 : rstripNl (rstripNl (stripTrail s) ++ ['\n', '\n']) = rstripNl (stripTrail s) := by
+    have : rstripNl (stripTrail s) ++ ['\n', '\n'] = (rstripNl (stripTrail s) ++ ['\n']) ++ ['\n'] := by simp
+    rw [this, rstripNl_append_nl, r1]
+  unfold finalizeV
+  generalize hB : rstripNl (stripTrail s) = B at *
+  unfold finalTail
+  by_cases hcond : (e && endsInContinuation B) = true
+  · simp only [hcond, if_true]
+    rw [stripTrail_clean _ hc2, r2]
+    simp [hcond]
+  · simp only [hcond, Bool.false_eq_true, if_false]
+    rw [stripTrail_clean _ hc1, r1]
+    simp [hcond]
+
+example : finalizeV true "x = 1 \\\n\n\n".toList = "x = 1 \\\n\n".toList ∧
+    finalizeV false "x = 1 \\\n\n\n".toList = "x = 1 \\\n".toList ∧ finalizeV true "x\n\n".toList = "x\n".toList := by decide
+
+/-- a token text that does not end in a blank -/
+def endClean (t : Str) : Bool := match t.getLast? with | some c => !isBlank c | none => true
+
+theorem stripMarkedFrom_append (R : Str) (e : Bool) (a b : List (Char × Bool)) :
+    stripMarkedFrom R e (a ++ b) = stripMarkedFrom (stripMarkedFrom R e b).1 (stripMarkedFrom R e b).2 a := by
+  induction a with
+  | nil => rfl
+  | cons x xs ih =>
+    obtain ⟨c, k⟩ := x
+    simp only [List.cons_append, stripMarkedFrom, ih]
+
+theorem stripMarkedFrom_cons (R : Str) (e : Bool) (c : Char) (k : Bool) (cs : List (Char × Bool)) :
+    stripMarkedFrom R e ((c, k) :: cs) =
+      if isBlank c && (stripMarkedFrom R e cs).2 then stripMarkedFrom R e cs
+      else (c :: (stripMarkedFrom R e cs).1, decide (c = '\n') && !k) := by
+  simp only [stripMarkedFrom]
+
+theorem stripMarkedFrom_sep (R : Str) (e : Bool) (t : Str) :
+    stripMarkedFrom R e (markSep t) = ((stripSepFrom e t).1 ++ R, (stripSepFrom e t).2) := by
+  induction t with
+  | nil => rfl
+  | cons c cs ih =>
+    simp only [markSep, List.map_cons] at ih ⊢
+    simp only [stripMarkedFrom, stripSepFrom, ih]
+    generalize stripSepFrom e cs = q
+    obtain ⟨r, e'⟩ := q
+    cases hb : (isBlank c && e') <;> simp [hb]
+
+theorem stripMarkedFrom_protected (R : Str) (e : Bool) (cs : Str) (hne : cs ≠ []) (h : endClean cs = true) :
+    stripMarkedFrom R e (cs.map (fun d => (d, true))) = (cs ++ R, false) := by
+  induction cs with
+  | nil => exact absurd rfl hne
+  | cons c r ih =>
+    cases r with
+    | nil =>
+      have hb : isBlank c = false := by simpa [endClean] using h
+      simp [stripMarkedFrom, hb]
+    | cons d r' =>
+      have h' : endClean (d :: r') = true := by simpa [endClean] using h
+      have := ih (by simp) h'
+      simp only [List.map_cons] at this ⊢
+      rw [stripMarkedFrom_cons, this]
+      simp
+
+/-- "what follows is a line end or the end", seen from in front of a text -/
+def headFlag (e : Bool) : Str → Bool
+  | [] => e
+  | c :: _ => decide (c = '\n')
+
+theorem stripMarkedFrom_tok (R : Str) (e : Bool) (t : Str) (h : endClean t = true) :
+    stripMarkedFrom R e (markTok t) = (t ++ R, headFlag e t) := by
+  cases t with
+  | nil => rfl
+  | cons c cs =>
+    cases cs with
+    | nil =>
+      have hb : isBlank c = false := by simpa [endClean] using h
+      simp [markTok, stripMarkedFrom, hb, headFlag]
+    | cons d r =>
+      have h' : endClean (d :: r) = true := by simpa [endClean] using h
+      have := stripMarkedFrom_protected R e (d :: r) (by simp) h'
+      simp only [markTok]
+      rw [stripMarkedFrom_cons, this]
+      simp [headFlag]
+
+/-- C17 (repaired `_finalize`, token-safe): when no token text ends in a blank — multi-line literals with
+blank-terminated lines INCLUDED — the strip edits separators only: the result is the same pieces with
+(some) separator blanks removed, every token text verbatim and in place. -/
+theorem stripMarked_spec (ps : List Piece) (h : ∀ p ∈ ps, p.isTok = true → endClean p.text = true) :
+    stripMarkedFrom [] true (marked ps) = (flatten (stripSeps ps).1, (stripSeps ps).2) := by
+  induction ps with
+  | nil => rfl
+  | cons p ps ih =>
+    have ih := ih (fun q hq => h q (List.mem_cons_of_mem _ hq))
+    have hm : marked (p :: ps) = (if p.isTok then markTok p.text else markSep p.text) ++ marked ps := by
+      simp [marked]
+    rw [hm, stripMarkedFrom_append, ih]
+    simp only [stripSeps]
+    generalize stripSeps ps = q
+    obtain ⟨ps', e⟩ := q
+    cases hp : p.isTok
+    · simp only [Bool.false_eq_true, if_false]
+      rw [stripMarkedFrom_sep]
+      generalize stripSepFrom e p.text = q2
+      obtain ⟨t, e'⟩ := q2
+      simp [flatten]
+    · simp only [if_true]
+      have ht := stripMarkedFrom_tok (flatten ps') e p.text (h p (List.mem_cons_self ..) hp)
+      rw [ht]
+      cases hpt : p.text <;> simp [flatten, hpt, headFlag]
+
+theorem C17_finalize_token_safe_repaired (e : Bool) (ps : List Piece)
+    (h : ∀ p ∈ ps, p.isTok = true → endClean p.text = true) :
+    finalizeLit e ps = rstripNl (flatten (stripSeps ps).1) ++ finalTail e (rstripNl (flatten (stripSeps ps).1)) ∧
+    (stripSeps ps).1.filter (·.isTok) = ps.filter (·.isTok) := by
+  refine ⟨?_, stripSeps_toks ps⟩
+  unfold finalizeLit
+  rw [stripMarked_spec ps h]
+
+/-- the literal that the snapshot's `_finalize` changes (`C17_finalize_token_safe_cex`) survives the repaired one -/
+example :
+    let ps := [tokP ['x'], sepP .eq [' '], tokP ['='], sepP .eq [' '], tokP cexString, sepP .gapSome [' ', ' '], sepP .newline ['\n']]
+    finalizeLit false ps = "x = \"\"\"a \nb\"\"\"\n".toList ∧ endClean cexString = true := by decide
+
+theorem map_fst_markTok (t : Str) : (markTok t).map Prod.fst = t := by
+  cases t with
+  | nil => rfl
+  | cons c cs => simp [markTok, List.map_map, Function.comp_def]
+
+theorem map_fst_marked (ps : List Piece) : (marked ps).map Prod.fst = flatten ps := by
+  induction ps with
+  | nil => rfl
+  | cons p ps ih =>
+    have hm : marked (p :: ps) = (if p.isTok then markTok p.text else markSep p.text) ++ marked ps := by
+      simp [marked]
+    have hf : flatten (p :: ps) = p.text ++ flatten ps := by simp [flatten]
+    rw [hm, hf, List.map_append, ih]
+    cases p.isTok
+    · simp [markSep, List.map_map, Function.comp_def]
+    · simp [map_fst_markTok]
+
+theorem stripWs_stripMarkedFrom (R : Str) (e : Bool) (m : List (Char × Bool)) :
+    stripWs (stripMarkedFrom R e m).1 = stripWs (m.map Prod.fst) ++ stripWs R := by
+  induction m with
+  | nil => simp [stripMarkedFrom, stripWs]
+  | cons x xs ih =>
+    obtain ⟨c, k⟩ := x
+    simp only [stripMarkedFrom, List.map_cons]
+    generalize hq : stripMarkedFrom R e xs = q at ih
+    obtain ⟨r, e'⟩ := q
+    simp only at ih
+    have e2 : stripWs (c :: xs.map Prod.fst) = stripWs [c] ++ stripWs (xs.map Prod.fst) := by
+      rw [← stripWs_append]; rfl
+    cases hb : (isBlank c && e')
+    · simp only [Bool.false_eq_true, if_false]
+      have e1 : stripWs (c :: r) = stripWs [c] ++ stripWs r := by rw [← stripWs_append]; rfl
+      rw [e1, ih, e2]; simp
+    · simp only [if_true]
+      simp only [Bool.and_eq_true] at hb
+      have hs := isBlank_isPySpace hb.1
+      have : stripWs [c] = [] := by simp [stripWs, hs]
+      rw [ih, e2, this]; simp
+
+theorem stripWs_finalTail (e : Bool) (b : Str) : stripWs (finalTail e b) = [] := by
+  unfold finalTail; split <;> decide
+
+/-- either variant of `_finalize` changes whitespace only -/
+theorem C17_finalizeV_only_ws (e : Bool) (s : Str) : stripWs (finalizeV e s) = stripWs s := by
+  unfold finalizeV stripTrail
+  rw [stripWs_append, stripWs_rstripNl, stripWs_stripTrailFrom, stripWs_finalTail]
+  simp [stripWs]
+
+theorem C17_finalizeLit_only_ws (e : Bool) (ps : List Piece) : stripWs (finalizeLit e ps) = stripWs (flatten ps) := by
+  unfold finalizeLit
+  simp only []
+  rw [stripWs_append, stripWs_rstripNl, stripWs_stripMarkedFrom, stripWs_finalTail, map_fst_marked]
+  simp [stripWs]
+
+/-- C17 (only whitespace changes) for the implementation's variant, whichever it is. -/
+theorem C17_only_ws_changes_V (cfg : Cfg) (hind : allWs cfg.indent = true) (toks : List Tok)
+    (hsrc : srcSepsWs (pieces cfg toks) = true) :
+    stripWs (formatV cfg toks) = stripWs ((realToks false toks).flatMap (renderToken cfg)) := by
+  have key : stripWs (flatten (pieces cfg toks)) = stripWs ((realToks false toks).flatMap (renderToken cfg)) := by
+    rw [← C17_tokens_emitted cfg hind]
+    apply stripWs_flatten
+    intro p hp hnt
+    cases hs : p.fromSrc
+    · exact C17_seps_are_ws cfg hind toks p hp hnt hs
+    · simp only [srcSepsWs, List.all_eq_true] at hsrc
+      have := hsrc p hp
+      simpa [hs] using this
+  unfold formatV
+  split
+  · rw [C17_finalizeLit_only_ws, key]
+  · rw [C17_finalizeV_only_ws, key]
+
+/-! ### subprocess text keeps its gaps (repaired `_space_between`) -/
+
+/-- C17 (repaired code): between the words of a subprocess command — outside macro bodies and continuation
+lines — no rule other than the comment padding and the bracket adjacency rules decides a separator: the
+source's gap is kept (as one blank or none), for ALL token pairs.  On the snapshot (`guard = false`) the
+comma / colon / operator / keyword rules fire there: `C17_subproc_text_respaced_snapshot`. -/
+theorem C17_subproc_text_keeps_gaps (cfg : Cfg) (st : St) (a b : Tok) (hg : cfg.v.guard = true)
+    (hs : inSubprocText st = true) :
+    let r := (spaceLate cfg st a b).rule
+    r = .comment ∨ r = .opener ∨ r = .closer ∨ r = .gapLines ∨ r = .gapSome ∨ r = .gapNone := by
+  intro r
+  simp only [r]
+  unfold spaceLate forced
+  by_cases c1 : b.kind = .comment
+  · simp [c1, sepP]
+  · by_cases c2 : a.text ∈ cfg.tb.openers
+    · simp [c1, c2, sepP]
+    · by_cases c3 : b.text ∈ cfg.tb.closers
+      · simp [c1, c2, c3, sepP]
+      · simp only [c1, if_false, List.contains_eq_mem, c2, c3, decide_false, Bool.false_eq_true, hg, hs, Bool.and_self,
+          if_true]
+        rcases gapOf_rule a b with h | h | h <;> simp [h]
+
+/-- the snapshot's behaviour, and the repaired one, on `echo a,b` (tokens `,` and `b`, adjacent in the source) -/
+theorem C17_subproc_text_respaced_snapshot :
+    let st : St := { subprocLine := true }
+    let comma : Tok := ⟨.op, [','], 1, 6, 1, 7⟩
+    let b : Tok := ⟨.name, ['b'], 1, 7, 1, 8⟩
+    (spaceBetween genCfg st comma b).text = [' '] ∧
+    (spaceBetween { genCfg with v := { guard := true } } st comma b).text = [] := by
+  decide
+
+example : inSubprocText { brackets := [['('], ['$', '(']] } = true ∧
+    inSubprocText { brackets := [['@', '('], ['$', '(']], subprocLine := true } = false ∧
+    inSubprocText { subprocLine := true } = true ∧ inSubprocText {} = false := by decide
+
 /-! ## the model computes (non-vacuity of the run-loop theorems) -/
 
 def exToks : List Tok :=
@@ -910,7 +1203,7 @@ def exToks : List Tok :=
    ⟨.number, ['1'], 1, 4, 1, 5⟩, ⟨.op, [','], 1, 6, 1, 7⟩, ⟨.number, ['2'], 1, 7, 1, 8⟩, ⟨.op, [')'], 1, 9, 1, 10⟩,
    ⟨.newline, ['\n'], 1, 10, 1, 11⟩, ⟨.endmarker, [], 2, 0, 2, 0⟩, ⟨.name, ['z'], 3, 0, 3, 1⟩]
 
-def exCfg : Cfg := ⟨genTables, Gen.FormatTables.defaultIndent, splitNl "x=( 1 ,2 )\n".toList⟩
+def exCfg : Cfg := ⟨genTables, Gen.FormatTables.defaultIndent, splitNl "x=( 1 ,2 )\n".toList, {}⟩
 
 /-- `x=( 1 ,2 )` is formatted to `x = (1, 2)`; the token after ENDMARKER is not emitted -/
 example : format exCfg exToks = "x = (1, 2)\n".toList := by decide
